@@ -40,7 +40,9 @@ package pstoremem
 //@ pred inHeap(pa *peerAddrs, e *expiringAddr) =
 //@     0 <= e.heapIndex && e.heapIndex < len(pa.expiringHeap) && pa.expiringHeap[e.heapIndex] == e
 //@ pred idxOK(pa *peerAddrs) =
-//@     forall i int :: 0 <= i && i < len(pa.expiringHeap) ==> pa.expiringHeap[i] != nil && pa.expiringHeap[i].heapIndex == i
+//@     (forall i int :: 0 <= i && i < len(pa.expiringHeap) ==> pa.expiringHeap[i] != nil && allocated(pa.expiringHeap[i]) && pa.expiringHeap[i].heapIndex == i) &&
+//@     (len(pa.expiringHeap) > 0 ==> pa.expiringHeap[0] != nil && pa.expiringHeap[0].heapIndex == 0 && allocated(pa.expiringHeap[0])) &&
+//@     (forall e *expiringAddr :: inHeap(pa, e) ==> e != nil && allocated(e))
 //@ pred ordered(pa *peerAddrs) = ghost.c09hvalid(pa) &&
 //@     forall e *expiringAddr :: inHeap(pa, e) ==> e.Expiry == ghost.c09hexp(e)
 //@ pred orderedExcept(pa *peerAddrs, x *expiringAddr) = ghost.c09hvalid(pa) &&
@@ -145,7 +147,10 @@ package pstoremem
 
 //@ func (pa *peerAddrs) Update
 //@ prop C09
-//@ requires a != nil && idxOK(pa) && (a.heapIndex == -1 || inHeap(pa, a)) && orderedExcept(pa, a)
+//@ requires a != nil && pa.Addrs[a.Peer][string(a.Addr.Bytes())] == a
+//@ requires memberOK(pa)
+//@ requires idxOK(pa)
+//@ requires orderedExcept(pa, a)
 //@ requires a.heapIndex == -1 ==> rootMin(pa)
 //@ ensures idxOK(pa)
 //@ ensures ordered(pa)
@@ -171,13 +176,15 @@ package pstoremem
 //@ pred keyOf(e *expiringAddr) = string(e.Addr.Bytes())
 //@ pred lookup(pa *peerAddrs, e *expiringAddr) = pa.Addrs[e.Peer][string(e.Addr.Bytes())]
 //@ pred slotOK(pa *peerAddrs) =
-//@     forall q peer.ID, k string :: (has(pa.Addrs, q) && has(pa.Addrs[q], k) ==> pa.Addrs[q][k] != nil) &&
+//@     forall q peer.ID, k string :: (has(pa.Addrs, q) && has(pa.Addrs[q], k) ==> pa.Addrs[q][k] != nil) && allocated(pa.Addrs[q][k]) &&
 //@         (pa.Addrs[q][k] != nil ==> pa.Addrs[q][k].Peer == q && string(pa.Addrs[q][k].Addr.Bytes()) == k)
-//@ pred entOK(pa *peerAddrs) =
-//@     forall e *expiringAddr :: e != nil && pa.Addrs[e.Peer][string(e.Addr.Bytes())] == e ==>
-//@         (e.heapIndex == -1 || inHeap(pa, e)) && (inHeap(pa, e) <==> e.TTL < peerstore.ConnectedAddrTTL)
+//@ pred memberOK(pa *peerAddrs) =
+//@     forall e *expiringAddr :: e != nil && pa.Addrs[e.Peer][string(e.Addr.Bytes())] == e ==> (e.heapIndex == -1 || inHeap(pa, e))
+//@ pred classOK(pa *peerAddrs) =
+//@     forall e *expiringAddr :: e != nil && pa.Addrs[e.Peer][string(e.Addr.Bytes())] == e ==> (inHeap(pa, e) <==> e.TTL < peerstore.ConnectedAddrTTL)
+//@ pred entOK(pa *peerAddrs) = memberOK(pa) && classOK(pa)
 //@ pred outerOK(pa *peerAddrs) = pa.Addrs != nil &&
-//@     (forall q peer.ID :: has(pa.Addrs, q) ==> pa.Addrs[q] != nil && pa.Addrs[q] != pa.Addrs && len(pa.Addrs[q]) > 0) &&
+//@     (forall q peer.ID :: has(pa.Addrs, q) ==> pa.Addrs[q] != nil && allocated(pa.Addrs[q]) && pa.Addrs[q] != pa.Addrs && len(pa.Addrs[q]) > 0) &&
 //@     (forall q peer.ID, r peer.ID :: has(pa.Addrs, q) && has(pa.Addrs, r) && pa.Addrs[q] == pa.Addrs[r] ==> q == r)
 //@ pred heapStored(pa *peerAddrs) =
 //@     forall e *expiringAddr :: inHeap(pa, e) ==> pa.Addrs[e.Peer][string(e.Addr.Bytes())] == e
@@ -185,8 +192,12 @@ package pstoremem
 
 //@ func (pa *peerAddrs) FindAddr
 //@ prop C09
+//@ requires slotOK(pa)
 //@ ensures result1 <==> has(pa.Addrs, p) && has(pa.Addrs[p], string(addr.Bytes()))
 //@ ensures result0 == pa.Addrs[p][string(addr.Bytes())]
+//@ ensures result1 <==> result0 != nil
+//@ ensures result1 ==> allocated(result0) && result0.Peer == p && string(result0.Addr.Bytes()) == string(addr.Bytes()) &&
+//@         pa.Addrs[result0.Peer][string(result0.Addr.Bytes())] == result0
 //@ modifies nothing
 
 // othersSame: every lookup except the one of entry x (peer x.Peer, key keyOf(x)) answers as before
@@ -197,8 +208,14 @@ package pstoremem
 
 //@ func (pa *peerAddrs) Insert
 //@ prop C09
-//@ requires a != nil && BK(pa) && pa.Addrs[a.Peer][string(a.Addr.Bytes())] == nil
-//@ requires forall i int :: 0 <= i && i < len(pa.expiringHeap) ==> pa.expiringHeap[i] != a
+//@ requires a != nil && pa.Addrs[a.Peer][string(a.Addr.Bytes())] == nil
+//@ requires idxOK(pa)
+//@ requires ordered(pa)
+//@ requires rootMin(pa)
+//@ requires slotOK(pa)
+//@ requires entOK(pa)
+//@ requires outerOK(pa)
+//@ requires heapStored(pa)
 //@ ensures idxOK(pa)
 //@ ensures ordered(pa)
 //@ ensures rootMin(pa)
@@ -210,12 +227,20 @@ package pstoremem
 //@ ensures othersSame(pa, a)
 //@ ensures len(pa.expiringHeap) == len(old(pa.expiringHeap)) + ite(a.TTL < peerstore.ConnectedAddrTTL, 1, 0)
 //@ ensures forall q peer.ID :: has(pa.Addrs, q) && q != a.Peer ==> pa.Addrs[q] == old(pa.Addrs[q])
+//@ ensures has(pa.Addrs, a.Peer) && (forall q peer.ID :: q != a.Peer ==> (has(pa.Addrs, q) <==> old(has(pa.Addrs, q))))
 //@ ensures pa.Addrs[a.Peer] == old(pa.Addrs[a.Peer]) || fresh(pa.Addrs[a.Peer])
 //@ modifies contents(pa.Addrs), contents(pa.Addrs[a.Peer]), pa.expiringHeap, elems(pa.expiringHeap), expiringAddr.heapIndex, ghost.c09hvalid(pa), ghost.c09hexp(_)
 
 //@ func (pa *peerAddrs) Delete
 //@ prop C09
-//@ requires a != nil && BK(pa) && pa.Addrs[a.Peer][string(a.Addr.Bytes())] == a
+//@ requires a != nil && pa.Addrs[a.Peer][string(a.Addr.Bytes())] == a
+//@ requires idxOK(pa)
+//@ requires ordered(pa)
+//@ requires rootMin(pa)
+//@ requires slotOK(pa)
+//@ requires entOK(pa)
+//@ requires outerOK(pa)
+//@ requires heapStored(pa)
 //@ ensures idxOK(pa)
 //@ ensures ordered(pa)
 //@ ensures rootMin(pa)
@@ -227,7 +252,9 @@ package pstoremem
 //@ ensures othersSame(pa, a)
 //@ ensures len(pa.expiringHeap) == len(old(pa.expiringHeap)) - ite(old(a.TTL) < peerstore.ConnectedAddrTTL, 1, 0)
 //@ ensures forall q peer.ID :: has(pa.Addrs, q) ==> pa.Addrs[q] == old(pa.Addrs[q])
-//@ ensures forall q peer.ID :: has(pa.Addrs, q) ==> old(has(pa.Addrs, q))
+//@ ensures forall q peer.ID :: (has(pa.Addrs, q) ==> old(has(pa.Addrs, q))) && (q != a.Peer ==> (has(pa.Addrs, q) <==> old(has(pa.Addrs, q))))
+//@ ensures !has(pa.Addrs, a.Peer) ==> forall k string :: !has(old(pa.Addrs[a.Peer]), k)
+//@ ensures !has(old(pa.Addrs[a.Peer]), string(a.Addr.Bytes()))
 //@ modifies contents(pa.Addrs), contents(pa.Addrs[a.Peer]), pa.expiringHeap, elems(pa.expiringHeap), expiringAddr.heapIndex, ghost.c09hvalid(pa), ghost.c09hexp(_)
 
 //@ func (pa *peerAddrs) PopIfExpired
@@ -250,4 +277,318 @@ package pstoremem
 //@ ensures result1 ==> othersSame(pa, result0)
 //@ ensures result1 ==> len(pa.expiringHeap) == len(old(pa.expiringHeap)) - 1
 //@ ensures forall q peer.ID :: has(pa.Addrs, q) ==> old(has(pa.Addrs, q)) && pa.Addrs[q] == old(pa.Addrs[q])
-//@ modifies peerAddrs.Addrs, pa.expiringHeap, elems(pa.expiringHeap), expiringAddr.heapIndex, ghost.c09hvalid(pa), ghost.c09hexp(_)
+//@ ensures result1 ==> forall q peer.ID :: q != result0.Peer ==> (has(pa.Addrs, q) <==> old(has(pa.Addrs, q)))
+//@ modifies contents(pa.Addrs), contents(pa.Addrs[pa.expiringHeap[0].Peer]), pa.expiringHeap, elems(pa.expiringHeap), expiringAddr.heapIndex, ghost.c09hvalid(pa), ghost.c09hexp(_)
+
+// ---------------------------------------------------------------------------
+// Layer 3: the address book. MB = peerAddrs invariant + signed-record invariant: a signed peer record is kept
+// only for peers that still have stored addresses (gc and every writer re-establish this for the peer they touch).
+
+//@ pred recOK(mab *memoryAddrBook) = mab.signedPeerRecords != nil && mab.signedPeerRecords != mab.addrs.Addrs &&
+//@     (forall q peer.ID :: has(mab.addrs.Addrs, q) ==> mab.addrs.Addrs[q] != mab.signedPeerRecords)
+//@ pred recLive(mab *memoryAddrBook) =
+//@     forall q peer.ID :: has(mab.signedPeerRecords, q) ==> mab.signedPeerRecords[q] != nil && has(mab.addrs.Addrs, q)
+//@ pred recLiveExcept(mab *memoryAddrBook, p peer.ID) =
+//@     forall q peer.ID :: has(mab.signedPeerRecords, q) ==> mab.signedPeerRecords[q] != nil && (q != p ==> has(mab.addrs.Addrs, q))
+//@ pred MB(mab *memoryAddrBook) = BK(mab.addrs) && recOK(mab) && recLive(mab)
+
+//@ func (mab *memoryAddrBook) maybeDeleteSignedPeerRecordUnlocked
+//@ prop C09
+//@ requires outerOK(mab.addrs) && mab.signedPeerRecords != nil
+//@ ensures !has(mab.addrs.Addrs, p) ==> !has(mab.signedPeerRecords, p)
+//@ ensures has(mab.addrs.Addrs, p) ==> (has(mab.signedPeerRecords, p) <==> old(has(mab.signedPeerRecords, p))) && mab.signedPeerRecords[p] == old(mab.signedPeerRecords[p])
+//@ ensures forall q peer.ID :: q != p ==> (has(mab.signedPeerRecords, q) <==> old(has(mab.signedPeerRecords, q))) && mab.signedPeerRecords[q] == old(mab.signedPeerRecords[q])
+//@ modifies contents(mab.signedPeerRecords)
+
+//@ func (mab *memoryAddrBook) numUnconnectedAddrsForPeerUnlocked
+//@ prop C09
+//@ loop 0 invariant n >= 0
+//@ ensures result >= 0
+//@ modifies nothing
+
+//@ func (mab *memoryAddrBook) evictNearestExpiryUnconnectedForPeerUnlocked
+//@ prop C09
+//@ requires BK(mab.addrs)
+//@ loop 0 invariant victim == nil || (mab.addrs.Addrs[p][string(victim.Addr.Bytes())] == victim && victim.Peer == p && victim.TTL < peerstore.ConnectedAddrTTL)
+//@ loop 0 invariant forall k string :: visited(0, k) && mab.addrs.Addrs[p][k] != nil && mab.addrs.Addrs[p][k].TTL < peerstore.ConnectedAddrTTL ==>
+//@         victim != nil && victim.Expiry <= mab.addrs.Addrs[p][k].Expiry
+//@ ensures idxOK(mab.addrs)
+//@ ensures ordered(mab.addrs)
+//@ ensures rootMin(mab.addrs)
+//@ ensures slotOK(mab.addrs)
+//@ ensures entOK(mab.addrs)
+//@ ensures outerOK(mab.addrs)
+//@ ensures heapStored(mab.addrs)
+//@ ensures !result ==> (forall k string :: mab.addrs.Addrs[p][k] == nil || mab.addrs.Addrs[p][k].TTL >= peerstore.ConnectedAddrTTL) &&
+//@         (forall q peer.ID, k string :: mab.addrs.Addrs[q][k] == old(mab.addrs.Addrs[q][k])) && len(mab.addrs.expiringHeap) == len(old(mab.addrs.expiringHeap))
+//@ ensures result ==> len(mab.addrs.expiringHeap) == len(old(mab.addrs.expiringHeap)) - 1
+//@ ensures result ==> exists v *expiringAddr :: v != nil && v.Peer == p && v.TTL < peerstore.ConnectedAddrTTL &&
+//@         old(mab.addrs.Addrs[v.Peer][string(v.Addr.Bytes())]) == v && mab.addrs.Addrs[p][string(v.Addr.Bytes())] == nil &&
+//@         othersSame(mab.addrs, v) &&
+//@         (forall k string :: old(mab.addrs.Addrs[p][k]) != nil && old(mab.addrs.Addrs[p][k].TTL) < peerstore.ConnectedAddrTTL ==>
+//@             v.Expiry <= old(mab.addrs.Addrs[p][k].Expiry))
+//@ ensures forall q peer.ID :: has(mab.addrs.Addrs, q) ==> old(has(mab.addrs.Addrs, q)) && mab.addrs.Addrs[q] == old(mab.addrs.Addrs[q])
+//@ ensures forall q peer.ID :: q != p ==> (has(mab.addrs.Addrs, q) <==> old(has(mab.addrs.Addrs, q)))
+//@ modifies contents(mab.addrs.Addrs), contents(mab.addrs.Addrs[p]), mab.addrs.expiringHeap, elems(mab.addrs.expiringHeap), expiringAddr.heapIndex, ghost.c09hvalid(mab.addrs), ghost.c09hexp(_)
+
+// Reads: exactly the addresses whose expiry lies in the future are returned.
+
+//@ func validAddrs
+//@ prop C09
+//@ loop 0 invariant forall i int :: 0 <= i && i < len(good) ==>
+//@         exists k string :: has(amap, k) && amap[k].Expiry > now && good[i] == amap[k].Addr
+//@ loop 0 invariant forall k string :: visited(0, k) && has(amap, k) && amap[k].Expiry > now ==>
+//@         exists i int :: 0 <= i && i < len(good) && good[i] == amap[k].Addr
+//@ ensures forall i int :: 0 <= i && i < len(result) ==>
+//@         exists k string :: has(amap, k) && amap[k].Expiry > now && result[i] == amap[k].Addr
+//@ ensures forall k string :: has(amap, k) && amap[k].Expiry > now ==>
+//@         exists i int :: 0 <= i && i < len(result) && result[i] == amap[k].Addr
+//@ modifies nothing
+
+//@ func (mab *memoryAddrBook) PeersWithAddrs
+//@ prop C09
+//@ loop 0 invariant forall i int :: 0 <= i && i < len(peers) ==> has(mab.addrs.Addrs, peers[i])
+//@ loop 0 invariant forall q peer.ID :: visited(0, q) && has(mab.addrs.Addrs, q) ==> exists i int :: 0 <= i && i < len(peers) && peers[i] == q
+//@ ensures forall i int :: 0 <= i && i < len(result) ==> has(mab.addrs.Addrs, result[i])
+//@ ensures forall q peer.ID :: has(mab.addrs.Addrs, q) ==> exists i int :: 0 <= i && i < len(result) && result[i] == q
+//@ modifies nothing
+
+//@ func (mab *memoryAddrBook) Addrs
+//@ prop C09
+//@ ensures !has(mab.addrs.Addrs, p) ==> result == nil
+//@ ensures forall i int :: 0 <= i && i < len(result) ==>
+//@         exists k string :: has(mab.addrs.Addrs[p], k) && mab.addrs.Addrs[p][k].Expiry > ret(Now, 0, 0) && result[i] == mab.addrs.Addrs[p][k].Addr
+//@ ensures forall k string :: has(mab.addrs.Addrs, p) && has(mab.addrs.Addrs[p], k) && mab.addrs.Addrs[p][k].Expiry > ret(Now, 0, 0) ==>
+//@         exists i int :: 0 <= i && i < len(result) && result[i] == mab.addrs.Addrs[p][k].Addr
+//@ modifies nothing
+
+//@ func (mab *memoryAddrBook) GetPeerRecord
+//@ prop C09
+//@ ensures result != nil ==> has(mab.addrs.Addrs, p) && has(mab.signedPeerRecords, p) && result == mab.signedPeerRecords[p].Envelope &&
+//@         (exists k string :: has(mab.addrs.Addrs[p], k) && mab.addrs.Addrs[p][k].Expiry > ret(Now, 0, 0))
+//@ ensures (forall k string :: !has(mab.addrs.Addrs[p], k) || mab.addrs.Addrs[p][k].Expiry <= ret(Now, 0, 0)) ==> result == nil
+//@ ensures has(mab.addrs.Addrs, p) && mab.signedPeerRecords[p] != nil &&
+//@         (exists k string :: has(mab.addrs.Addrs[p], k) && mab.addrs.Addrs[p][k].Expiry > ret(Now, 0, 0)) ==> result == mab.signedPeerRecords[p].Envelope
+//@ modifies nothing
+
+// ---------------------------------------------------------------------------
+// Writers. validAt(addrs, i, p): the i-th named address is usable for peer p (not nil after splitting off a
+// /p2p suffix, and the suffix, if any, names p); namedKey(addrs, i) is the map key it is filed under.
+
+//@ pred validAt(addrs []ma.Multiaddr, i int, p peer.ID) = nth(peer.SplitAddr(addrs[i]), 0) != nil &&
+//@     (nth(peer.SplitAddr(addrs[i]), 1) == "" || nth(peer.SplitAddr(addrs[i]), 1) == p)
+//@ pred namedKey(addrs []ma.Multiaddr, i int) = string(nth(peer.SplitAddr(addrs[i]), 0).Bytes())
+//@ pred bookSame(pa *peerAddrs) = (forall q peer.ID, k string :: pa.Addrs[q][k] == old(pa.Addrs[q][k])) &&
+//@     (forall q peer.ID :: has(pa.Addrs, q) <==> old(has(pa.Addrs, q))) &&
+//@     (forall e *expiringAddr :: e.TTL == old(e.TTL) && e.Expiry == old(e.Expiry)) && len(pa.expiringHeap) == len(old(pa.expiringHeap))
+//@ pred neverShortened() = forall e *expiringAddr :: !fresh(e) ==> e.TTL >= old(e.TTL) && e.Expiry >= old(e.Expiry)
+//@ pred noForeignEntries(pa *peerAddrs) =
+//@     forall q peer.ID, k string :: pa.Addrs[q][k] == old(pa.Addrs[q][k]) || pa.Addrs[q][k] == nil || fresh(pa.Addrs[q][k])
+//@ pred otherPeersSame(pa *peerAddrs, p peer.ID) = (forall q peer.ID, k string :: q != p ==> pa.Addrs[q][k] == old(pa.Addrs[q][k])) &&
+//@     (forall q peer.ID :: q != p ==> (has(pa.Addrs, q) <==> old(has(pa.Addrs, q))) && (has(pa.Addrs, q) ==> pa.Addrs[q] == old(pa.Addrs[q]))) &&
+//@     (forall e *expiringAddr :: !fresh(e) && e.Peer != p ==> e.TTL == old(e.TTL) && e.Expiry == old(e.Expiry))
+
+//@ func (mab *memoryAddrBook) addAddrsUnlocked
+//@ prop C09
+//@ opaque BroadcastAddr
+//@ requires idxOK(mab.addrs) && ordered(mab.addrs) && rootMin(mab.addrs)
+//@ requires slotOK(mab.addrs) && entOK(mab.addrs)
+//@ requires outerOK(mab.addrs) && heapStored(mab.addrs)
+//@ requires recOK(mab)
+//@ requires recLiveExcept(mab, p)
+//@ loop 0 invariant 0 <= idx0 && idx0 <= len(addrs) && ttl > 0 && exp == ret(Now, 0, 0) + ttl
+//@ loop 0 invariant idxOK(mab.addrs)
+//@ loop 0 invariant ordered(mab.addrs)
+//@ loop 0 invariant rootMin(mab.addrs)
+//@ loop 0 invariant slotOK(mab.addrs)
+//@ loop 0 invariant memberOK(mab.addrs)
+//@ loop 0 invariant classOK(mab.addrs)
+//@ loop 0 invariant outerOK(mab.addrs) && recOK(mab)
+//@ loop 0 invariant heapStored(mab.addrs)
+//@ loop 0 invariant neverShortened()
+//@ loop 0 invariant forall e *expiringAddr :: fresh(e) && mab.addrs.Addrs[e.Peer][string(e.Addr.Bytes())] == e ==> e.Peer == p && e.TTL == ttl && e.Expiry == exp
+//@ loop 0 invariant otherPeersSame(mab.addrs, p)
+//@ loop 0 invariant noForeignEntries(mab.addrs)
+//@ loop 0 invariant forall q peer.ID :: (has(mab.signedPeerRecords, q) <==> old(has(mab.signedPeerRecords, q))) && mab.signedPeerRecords[q] == old(mab.signedPeerRecords[q])
+//@ ensures idxOK(mab.addrs) && ordered(mab.addrs) && rootMin(mab.addrs)
+//@ ensures slotOK(mab.addrs)
+//@ ensures entOK(mab.addrs)
+//@ ensures outerOK(mab.addrs) && recOK(mab)
+//@ ensures heapStored(mab.addrs)
+//@ ensures recLive(mab)
+//@ ensures ttl <= 0 ==> bookSame(mab.addrs)
+//@ ensures ttl < peerstore.ConnectedAddrTTL && len(old(mab.addrs.expiringHeap)) >= mab.maxUnconnectedAddrs ==> bookSame(mab.addrs)
+//@ ensures neverShortened()
+//@ ensures forall e *expiringAddr :: fresh(e) && mab.addrs.Addrs[e.Peer][string(e.Addr.Bytes())] == e ==> e.Peer == p && e.TTL == ttl && e.Expiry == ret(Now, 0, 0) + ttl
+//@ ensures otherPeersSame(mab.addrs, p)
+//@ ensures noForeignEntries(mab.addrs)
+//@ ensures forall q peer.ID :: q != p ==> (has(mab.signedPeerRecords, q) <==> old(has(mab.signedPeerRecords, q))) && mab.signedPeerRecords[q] == old(mab.signedPeerRecords[q])
+//@ ensures has(mab.addrs.Addrs, p) ==> (has(mab.signedPeerRecords, p) <==> old(has(mab.signedPeerRecords, p))) && mab.signedPeerRecords[p] == old(mab.signedPeerRecords[p])
+//@ callsite Insert#0 requires arg1.Peer == p && (ret(SplitAddr, 0, 1) == "" || ret(SplitAddr, 0, 1) == p) && arg1.Addr == ret(SplitAddr, 0, 0) && arg1.TTL == ttl
+//@ modifies peerAddrs.Addrs, contents(mab.signedPeerRecords), mab.addrs.expiringHeap, elems(_),
+//@         expiringAddr.TTL, expiringAddr.Expiry, expiringAddr.heapIndex, ghost.c09hvalid(mab.addrs), ghost.c09hexp(_)
+
+// ---------------------------------------------------------------------------
+// Signed peer records (C08 clauses first: post#0 event form, post#1 state form)
+
+//@ func (mab *memoryAddrBook) ConsumePeerRecord
+//@ prop C09
+//@ requires MB(mab)
+//@ loop 1 invariant 0 <= idx1 && idx1 <= len(prevRec) && found && lastState == old(mab.signedPeerRecords)[rec.PeerID]
+//@ loop 1 invariant idxOK(mab.addrs)
+//@ loop 1 invariant ordered(mab.addrs)
+//@ loop 1 invariant rootMin(mab.addrs)
+//@ loop 1 invariant slotOK(mab.addrs)
+//@ loop 1 invariant entOK(mab.addrs)
+//@ loop 1 invariant outerOK(mab.addrs) && recOK(mab)
+//@ loop 1 invariant heapStored(mab.addrs)
+//@ loop 1 invariant forall q peer.ID :: (has(mab.signedPeerRecords, q) <==> old(has(mab.signedPeerRecords, q))) && mab.signedPeerRecords[q] == old(mab.signedPeerRecords[q])
+//@ loop 1 invariant recLiveExcept(mab, rec.PeerID)
+//@ loop 1 invariant fresh(newAddrSet) && !fresh(mab.addrs.Addrs) && !fresh(mab.signedPeerRecords) && (forall q peer.ID :: has(mab.addrs.Addrs, q) ==> !fresh(mab.addrs.Addrs[q]))
+//@ loop 1 invariant forall e *expiringAddr :: e.TTL == old(e.TTL) && e.Expiry == old(e.Expiry)
+//@ loop 1 invariant forall q peer.ID :: q != rec.PeerID ==> (has(mab.addrs.Addrs, q) <==> old(has(mab.addrs.Addrs, q)))
+//@ loop 1 invariant forall q peer.ID, k string :: mab.addrs.Addrs[q][k] == old(mab.addrs.Addrs[q][k]) ||
+//@         (mab.addrs.Addrs[q][k] == nil && q == rec.PeerID && old(mab.addrs.Addrs[q][k].TTL) < peerstore.ConnectedAddrTTL)
+//@ ensures result0 ==> called(MatchesPublicKey, 0) && ret(MatchesPublicKey, 0, 0) && arg(MatchesPublicKey, 0, 0) == rec.PeerID && arg(MatchesPublicKey, 0, 1) == recordEnvelope.PublicKey
+//@ ensures result0 ==> nth(peer.IDFromPublicKey(recordEnvelope.PublicKey), 1) == nil && nth(peer.IDFromPublicKey(recordEnvelope.PublicKey), 0) == rec.PeerID
+//@ ensures result0 ==> forall q peer.ID :: q == rec.PeerID && old(has(mab.signedPeerRecords, q)) ==> old(mab.signedPeerRecords[q].Seq) <= rec.Seq
+//@ ensures !result0 ==> bookSame(mab.addrs) && (forall q peer.ID :: (has(mab.signedPeerRecords, q) <==> old(has(mab.signedPeerRecords, q))) && mab.signedPeerRecords[q] == old(mab.signedPeerRecords[q]))
+//@ ensures idxOK(mab.addrs) && ordered(mab.addrs) && rootMin(mab.addrs)
+//@ ensures slotOK(mab.addrs)
+//@ ensures entOK(mab.addrs)
+//@ ensures outerOK(mab.addrs) && recOK(mab)
+//@ ensures heapStored(mab.addrs)
+//@ ensures recLive(mab)
+//@ ensures result0 && has(mab.addrs.Addrs, rec.PeerID) ==> has(mab.signedPeerRecords, rec.PeerID) &&
+//@         mab.signedPeerRecords[rec.PeerID].Envelope == recordEnvelope && mab.signedPeerRecords[rec.PeerID].Seq == rec.Seq
+//@ ensures forall q peer.ID :: q != rec.PeerID ==> (has(mab.signedPeerRecords, q) <==> old(has(mab.signedPeerRecords, q))) && mab.signedPeerRecords[q] == old(mab.signedPeerRecords[q])
+//@ ensures result0 ==> neverShortened()
+//@ ensures result0 ==> noForeignEntries(mab.addrs)
+//@ ensures result0 ==> forall q peer.ID, k string :: q != rec.PeerID ==> mab.addrs.Addrs[q][k] == old(mab.addrs.Addrs[q][k])
+//@ noframe
+
+//@ func (mab *memoryAddrBook) addAddrs
+//@ prop C09
+//@ requires MB(mab)
+//@ ensures MB(mab)
+//@ ensures ttl <= 0 ==> bookSame(mab.addrs)
+//@ ensures neverShortened()
+//@ ensures otherPeersSame(mab.addrs, p)
+//@ ensures noForeignEntries(mab.addrs)
+//@ modifies peerAddrs.Addrs, contents(mab.signedPeerRecords), mab.addrs.expiringHeap, elems(_),
+//@         expiringAddr.TTL, expiringAddr.Expiry, expiringAddr.heapIndex, ghost.c09hvalid(mab.addrs), ghost.c09hexp(_)
+
+//@ func (mab *memoryAddrBook) AddAddrs
+//@ prop C09
+//@ requires MB(mab)
+//@ ensures MB(mab)
+//@ ensures ttl <= 0 ==> bookSame(mab.addrs)
+//@ ensures neverShortened()
+//@ ensures otherPeersSame(mab.addrs, p)
+//@ ensures noForeignEntries(mab.addrs)
+//@ modifies peerAddrs.Addrs, contents(mab.signedPeerRecords), mab.addrs.expiringHeap, elems(_),
+//@         expiringAddr.TTL, expiringAddr.Expiry, expiringAddr.heapIndex, ghost.c09hvalid(mab.addrs), ghost.c09hexp(_)
+
+//@ func (mab *memoryAddrBook) AddAddr
+//@ prop C09
+//@ requires MB(mab)
+//@ ensures MB(mab)
+//@ ensures ttl <= 0 ==> bookSame(mab.addrs)
+//@ ensures neverShortened()
+//@ ensures otherPeersSame(mab.addrs, p)
+//@ modifies peerAddrs.Addrs, contents(mab.signedPeerRecords), mab.addrs.expiringHeap, elems(_),
+//@         expiringAddr.TTL, expiringAddr.Expiry, expiringAddr.heapIndex, ghost.c09hvalid(mab.addrs), ghost.c09hexp(_)
+
+// gc: afterwards no stored address that is not held by a live connection is expired; only such expired
+// addresses were removed; nothing else changes; a peer whose last address went away is no longer listed
+// (outerOK) and loses its signed record (recLive).
+
+//@ func (mab *memoryAddrBook) gc
+//@ prop C09
+//@ requires MB(mab)
+//@ loop 0 invariant idxOK(mab.addrs) && ordered(mab.addrs) && rootMin(mab.addrs)
+//@ loop 0 invariant slotOK(mab.addrs)
+//@ loop 0 invariant entOK(mab.addrs)
+//@ loop 0 invariant outerOK(mab.addrs) && recOK(mab)
+//@ loop 0 invariant heapStored(mab.addrs)
+//@ loop 0 invariant recLive(mab)
+//@ loop 0 invariant forall q peer.ID, k string :: mab.addrs.Addrs[q][k] == old(mab.addrs.Addrs[q][k]) ||
+//@         (mab.addrs.Addrs[q][k] == nil && old(mab.addrs.Addrs[q][k].Expiry) <= now && old(mab.addrs.Addrs[q][k].TTL) < peerstore.ConnectedAddrTTL)
+//@ loop 0 invariant forall q peer.ID :: has(mab.signedPeerRecords, q) ==> old(has(mab.signedPeerRecords, q)) && mab.signedPeerRecords[q] == old(mab.signedPeerRecords[q])
+//@ loop 0 invariant forall q peer.ID :: has(mab.addrs.Addrs, q) && old(has(mab.signedPeerRecords, q)) ==> has(mab.signedPeerRecords, q)
+//@ ensures MB(mab)
+//@ ensures forall e *expiringAddr :: e != nil && mab.addrs.Addrs[e.Peer][string(e.Addr.Bytes())] == e && e.TTL < peerstore.ConnectedAddrTTL ==> e.Expiry > ret(Now, 0, 0)
+//@ ensures forall q peer.ID, k string :: mab.addrs.Addrs[q][k] == old(mab.addrs.Addrs[q][k]) ||
+//@         (mab.addrs.Addrs[q][k] == nil && old(mab.addrs.Addrs[q][k].Expiry) <= ret(Now, 0, 0) && old(mab.addrs.Addrs[q][k].TTL) < peerstore.ConnectedAddrTTL)
+//@ ensures forall q peer.ID :: has(mab.signedPeerRecords, q) ==> old(has(mab.signedPeerRecords, q)) && mab.signedPeerRecords[q] == old(mab.signedPeerRecords[q])
+//@ ensures forall q peer.ID :: has(mab.addrs.Addrs, q) && old(has(mab.signedPeerRecords, q)) ==> has(mab.signedPeerRecords, q)
+//@ modifies peerAddrs.Addrs, mab.addrs.expiringHeap, elems(_), expiringAddr.heapIndex, ghost.c09hvalid(mab.addrs), ghost.c09hexp(_)
+
+// ClearAddrs: every address and the signed record of p are gone, nothing else changes.
+
+//@ func (mab *memoryAddrBook) ClearAddrs
+//@ prop C09
+//@ requires MB(mab)
+//@ loop 0 invariant idxOK(mab.addrs) && ordered(mab.addrs) && rootMin(mab.addrs)
+//@ loop 0 invariant slotOK(mab.addrs)
+//@ loop 0 invariant entOK(mab.addrs)
+//@ loop 0 invariant outerOK(mab.addrs) && recOK(mab)
+//@ loop 0 invariant heapStored(mab.addrs)
+//@ loop 0 invariant forall q peer.ID, k string :: q != p ==> mab.addrs.Addrs[q][k] == old(mab.addrs.Addrs[q][k])
+//@ loop 0 invariant forall q peer.ID :: q != p ==> (has(mab.addrs.Addrs, q) <==> old(has(mab.addrs.Addrs, q)))
+//@ loop 0 invariant forall k string :: mab.addrs.Addrs[p][k] == nil || mab.addrs.Addrs[p][k] == old(mab.addrs.Addrs[p][k])
+//@ loop 0 invariant has(mab.addrs.Addrs, p) ==> mab.addrs.Addrs[p] == old(mab.addrs.Addrs[p])
+//@ loop 0 invariant !has(mab.addrs.Addrs, p) ==> forall k string :: !has(old(mab.addrs.Addrs[p]), k)
+//@ loop 0 invariant forall k string :: visited(0, k) ==> !has(old(mab.addrs.Addrs[p]), k)
+//@ loop 0 invariant !has(mab.signedPeerRecords, p) && (forall q peer.ID :: q != p ==> (has(mab.signedPeerRecords, q) <==> old(has(mab.signedPeerRecords, q))) && mab.signedPeerRecords[q] == old(mab.signedPeerRecords[q]))
+//@ ensures MB(mab)
+//@ ensures len(old(mab.addrs.Addrs[p])) == 0 && !has(mab.addrs.Addrs, p) && !has(mab.signedPeerRecords, p)
+//@ ensures forall k string :: mab.addrs.Addrs[p][k] == nil
+//@ ensures forall q peer.ID, k string :: q != p ==> mab.addrs.Addrs[q][k] == old(mab.addrs.Addrs[q][k])
+//@ ensures forall q peer.ID :: q != p ==> (has(mab.addrs.Addrs, q) <==> old(has(mab.addrs.Addrs, q))) &&
+//@         (has(mab.signedPeerRecords, q) <==> old(has(mab.signedPeerRecords, q))) && mab.signedPeerRecords[q] == old(mab.signedPeerRecords[q])
+//@ modifies peerAddrs.Addrs, contents(mab.signedPeerRecords), mab.addrs.expiringHeap, elems(_), expiringAddr.heapIndex, ghost.c09hvalid(mab.addrs), ghost.c09hexp(_)
+
+// UpdateAddrs: a TTL-class update moves exactly the stored addresses of p whose TTL is oldTTL.
+
+//@ pred inClass(pa *peerAddrs, e *expiringAddr, p peer.ID, oldTTL time.Duration) =
+//@     e != nil && pa.Addrs[e.Peer][string(e.Addr.Bytes())] == e && e.Peer == p && e.TTL == oldTTL
+
+//@ func (mab *memoryAddrBook) UpdateAddrs
+//@ prop C09
+//@ requires MB(mab)
+//@ loop 0 invariant exp == ret(Now, 0, 0) + newTTL
+//@ loop 0 invariant idxOK(mab.addrs) && ordered(mab.addrs) && rootMin(mab.addrs)
+//@ loop 0 invariant slotOK(mab.addrs)
+//@ loop 0 invariant entOK(mab.addrs)
+//@ loop 0 invariant outerOK(mab.addrs) && recOK(mab)
+//@ loop 0 invariant heapStored(mab.addrs)
+//@ loop 0 invariant has(mab.addrs.Addrs, p) ==> mab.addrs.Addrs[p] == old(mab.addrs.Addrs[p])
+//@ loop 0 invariant !has(mab.addrs.Addrs, p) ==> forall k string :: !has(old(mab.addrs.Addrs[p]), k)
+//@ loop 0 invariant forall e *expiringAddr :: !old(inClass(mab.addrs, e, p, oldTTL)) ==> e.TTL == old(e.TTL) && e.Expiry == old(e.Expiry)
+//@ loop 0 invariant forall e *expiringAddr :: (e.TTL == old(e.TTL) && e.Expiry == old(e.Expiry)) || (e.TTL == newTTL && e.Expiry == exp)
+//@ loop 0 invariant forall q peer.ID, k string :: mab.addrs.Addrs[q][k] == old(mab.addrs.Addrs[q][k]) ||
+//@         (mab.addrs.Addrs[q][k] == nil && q == p && old(mab.addrs.Addrs[q][k].TTL) == oldTTL &&
+//@          (newTTL == 0 || (oldTTL >= peerstore.ConnectedAddrTTL && newTTL < peerstore.ConnectedAddrTTL)))
+//@ loop 0 invariant forall q peer.ID :: q != p ==> (has(mab.addrs.Addrs, q) <==> old(has(mab.addrs.Addrs, q)))
+//@ loop 0 invariant forall q peer.ID :: (has(mab.signedPeerRecords, q) <==> old(has(mab.signedPeerRecords, q))) && mab.signedPeerRecords[q] == old(mab.signedPeerRecords[q])
+//@ loop 0 invariant forall k string :: has(old(mab.addrs.Addrs[p]), k) && !visited(0, k) ==>
+//@         mab.addrs.Addrs[p][k] == old(mab.addrs.Addrs[p][k]) && mab.addrs.Addrs[p][k].TTL == old(mab.addrs.Addrs[p][k].TTL) && mab.addrs.Addrs[p][k].Expiry == old(mab.addrs.Addrs[p][k].Expiry)
+//@ loop 0 invariant forall k string :: visited(0, k) && mab.addrs.Addrs[p][k] != nil && old(mab.addrs.Addrs[p][k].TTL) == oldTTL ==>
+//@         newTTL != 0 && mab.addrs.Addrs[p][k].TTL == newTTL && mab.addrs.Addrs[p][k].Expiry == exp
+//@ ensures idxOK(mab.addrs) && ordered(mab.addrs) && rootMin(mab.addrs)
+//@ ensures slotOK(mab.addrs)
+//@ ensures entOK(mab.addrs)
+//@ ensures outerOK(mab.addrs) && recOK(mab)
+//@ ensures heapStored(mab.addrs)
+//@ ensures recLive(mab)
+//@ ensures forall e *expiringAddr :: !old(inClass(mab.addrs, e, p, oldTTL)) ==> e.TTL == old(e.TTL) && e.Expiry == old(e.Expiry)
+//@ ensures forall q peer.ID, k string :: mab.addrs.Addrs[q][k] == old(mab.addrs.Addrs[q][k]) ||
+//@         (mab.addrs.Addrs[q][k] == nil && q == p && old(mab.addrs.Addrs[q][k].TTL) == oldTTL &&
+//@          (newTTL == 0 || (oldTTL >= peerstore.ConnectedAddrTTL && newTTL < peerstore.ConnectedAddrTTL)))
+//@ ensures forall k string :: mab.addrs.Addrs[p][k] != nil && old(mab.addrs.Addrs[p][k].TTL) == oldTTL ==>
+//@         newTTL != 0 && mab.addrs.Addrs[p][k].TTL == newTTL && mab.addrs.Addrs[p][k].Expiry == ret(Now, 0, 0) + newTTL
+//@ ensures forall q peer.ID :: q != p ==> (has(mab.addrs.Addrs, q) <==> old(has(mab.addrs.Addrs, q))) &&
+//@         (has(mab.signedPeerRecords, q) <==> old(has(mab.signedPeerRecords, q))) && mab.signedPeerRecords[q] == old(mab.signedPeerRecords[q])
+//@ modifies peerAddrs.Addrs, contents(mab.signedPeerRecords), mab.addrs.expiringHeap, elems(_),
+//@         expiringAddr.TTL, expiringAddr.Expiry, expiringAddr.heapIndex, ghost.c09hvalid(mab.addrs), ghost.c09hexp(_)
